@@ -35,7 +35,7 @@ finally:
     assert r.returncode == 0, r.stderr
 open(f'{D}/demo.diff', 'w').write(demo_diff)
 res = {}
-log = f'/var/tmp/vt/confirm-{P}.log'
+log = os.environ.get('SEED_LOG') or f'/var/tmp/vt/confirm-{P}.log'
 if os.path.exists(log):
     m = re.search(r'RESULT \S+ demo_with_change_exit=(\d+) demo_without_exit=(\d+) suite_with_change_exit=(\d+)', open(log).read())
     if m:
